@@ -140,6 +140,18 @@ def build_checked(case):
         return s[:pos] + s[pos + 1:]
     if kind == "one":
         return "1" * (1 + a % 4) + s
+    if kind == "ws-end":
+        # a valid string with white space / control characters in front of or behind it (pasted, read from a file)
+        w_ = WHITESPACE[b % len(WHITESPACE)]
+        return [w_ + s, s + w_, w_ + s + w_][a % 3]
+    if kind == "ws-inside":
+        pos = 1 + a % max(1, len(s) - 1) if len(s) > 1 else 0
+        return s[:pos] + WHITESPACE[b % len(WHITESPACE)] + s[pos:]
+    if kind == "non-ascii":
+        # characters outside ASCII that digit / case conversions map onto alphabet characters
+        pos = a % (len(s) + 1)
+        ch = NON_ASCII[b % len(NON_ASCII)]
+        return s[:pos] + ch + s[pos + (a // 7) % 2:]
     if kind == "swap":
         if len(s) < 2:
             return s
@@ -148,7 +160,10 @@ def build_checked(case):
     raise ValueError(kind)
 
 
-KINDS = ["none", "chk", "pay", "trunc", "short", "single-sha", "subst", "look", "ins", "del", "one", "swap"]
+KINDS = ["none", "chk", "pay", "trunc", "short", "single-sha", "subst", "look", "ins", "del", "one", "swap", "ws-end", "ws-inside",
+         "non-ascii"]
+WHITESPACE = [" ", "\n", "\t", "\r\n", "\r", "\x0b", "\x0c", "\x00", "\u00a0", "\u2003", "\u3000", "\ufeff", "  "]
+NON_ASCII = ["\uff11", "\uff21", "\u0430", "\u0391", "\u00b9", "\u0661", "\u212a", "\u0131", "\u017f", "\u00e9"]
 
 
 def gen_checked(tier):
@@ -179,6 +194,9 @@ def enum_checked(tier):
             yield {"payload": p, "mut": ["trunc", k, 0]}
         for k in range(5):
             yield {"payload": p, "mut": ["short", k, 0]}
+        for w_ in range(len(WHITESPACE)):
+            for where in range(3):
+                yield {"payload": p, "mut": ["ws-end", where, w_]}
     for raw4 in (b58.sha256d(b"")[:4],):
         yield {"payload": raw4, "mut": ["short", 4, 0]}   # exactly the checksum of the empty payload
 
@@ -219,6 +237,16 @@ def check_checked(case, ctx):
         if case["payload"]:
             expect_eq("C10/checksum/encode-differs", "encode_base58_checksum(%s)" % case["payload"][:12].hex(),
                       enc, s)
+            # a caller that hands over a mutable buffer keeps it unchanged and can encode it again
+            buf = bytearray(case["payload"])
+            st1, e1 = call(h.encode_base58_checksum, buf)
+            if st1 == "ok":
+                st2, e2 = call(h.encode_base58_checksum, buf)
+                if bytes(buf) != case["payload"] or e1 != s or st2 == "exc" or e2 != s:
+                    raise Violation("C10/checksum/encode-touches-callers-buffer", "encode_base58_checksum(bytearray %s): first call "
+                                    "%r, second call %r, buffer afterwards %s" % (case["payload"][:12].hex(), e1, e2, bytes(buf).hex()[:80]))
+            else:
+                ctx.count("bytearray-payload-refused (not judged)")
 
 
 def nt_checked(case):
